@@ -53,6 +53,8 @@ class W(Task):
     weight: Meta[int] = 0
 
     def execute(self):
+        # (the job's own standard output: lost if the job script is launched a second time)
+        print(f"OUT {self.idx} {os.getpid()}", flush=True)
         fd = os.open(self.log, os.O_WRONLY | os.O_APPEND | os.O_CREAT)
         os.write(fd, f"B {self.idx} {os.getpid()} {self.weight}\n".encode())
         time.sleep(self.dur)
